@@ -121,6 +121,72 @@ Proof.
     split; [|split; [apply lookup_insert|done]].
     rewrite lookup_insert_ne by done. unfold eff_next0, eff_base. cbn [e_after pr_next e_newch]. by rewrite (lookup_union_r _ _ _ Hsf).
 Qed.
+
+(* ------------------------------------------------------------------ the target receives from a client channel *)
+Lemma ctl_del c f t nf k s : s <> t -> s <> f -> ctl nf k f t (del_proc c s) = del_proc (ctl nf k f t c) s.
+Proof.
+  intros Hst Hsf. unfold ctl, del_proc. cbn [procs chans out]. rewrite lookup_delete_ne by done.
+  destruct (procs c !! t) as [pt|]; [|done]. cbn [procs chans out]. f_equal.
+  apply map_eq. intros r. destruct (decide (r = t)) as [->|Hrt]; [by simplify_map_eq|].
+  destruct (decide (r = s)) as [->|Hrs]; [by simplify_map_eq|]. destruct (decide (r = f)) as [->|Hrf]; by simplify_map_eq.
+Qed.
+
+Lemma recv_client_provs t a b ka kb body nx k2 m e :
+  chan a = Some ka -> chan b = Some kb -> k2 <> ka ->
+  action_of NP D (Proc [a] body nx) = ARecv k2 -> on_message t (Proc [a] body nx) m = EOk e ->
+  m_rule m <> RFWD -> m_rule m <> RGC ->
+  action_of NP D (Proc [b] body nx) = ARecv k2 /\
+  exists B, e = eff_with [a] B nx [] [] [] /\ on_message t (Proc [b] body nx) m = EOk (eff_with [b] B nx [] [] []).
+Proof.
+  intros Ha Hb Hk2 Hact He Hfw Hgc. unfold on_message in *. cbn [pr_body0] in *.
+  destruct (rule_eqb (m_rule m) RFWD) eqn:E1; [apply rule_eqb_eq in E1; contradiction|].
+  destruct (rule_eqb (m_rule m) RGC) eqn:E2; [apply rule_eqb_eq in E2; contradiction|]. cbn [andb] in *.
+  unfold action_of in *. cbn [pr_body0] in *.
+  destruct body as [to pay cont|pay cont from k0|to l cont|from bs|x b0 k0|c0|c0 k0|to from d|x y from k0|fn args pt|to cont|x from k0|c0 k0|l k0];
+    try discriminate He; simpl in Hact |- *.
+  - destruct (is_self from).
+    + exfalso. unfold recv_on, self_chan, prov0, multi in Hact. simpl in Hact. rewrite Ha in Hact. injection Hact as <-. done.
+    + split; [exact Hact|]. destruct (rule_eqb (m_rule m) RSND); [|discriminate]. injection He as <-. unfold no_eff, set_body, eff_with. cbn. eauto.
+  - destruct (is_self from).
+    + exfalso. unfold recv_on, self_chan, prov0, multi in Hact. simpl in Hact. rewrite Ha in Hact. injection Hact as <-. done.
+    + split; [exact Hact|]. destruct (rule_eqb (m_rule m) RSEL); [|discriminate]. destruct (find_branch (m_label m) bs) as [[pay K]|]; [|discriminate].
+      injection He as <-. unfold no_eff, set_body, eff_with. cbn. eauto.
+  - destruct (is_self c0); [discriminate|]. split; [exact Hact|]. destruct (rule_eqb (m_rule m) RCLS); [|discriminate].
+    injection He as <-. unfold no_eff, set_body, eff_with. cbn. eauto.
+  - exfalso. revert Hact. destruct (negb (is_self to)); [done|]. by destruct (chan from).
+  - destruct (is_self from).
+    + exfalso. unfold recv_on, self_chan, prov0, multi in Hact. simpl in Hact. rewrite Ha in Hact. injection Hact as <-. done.
+    + split; [exact Hact|]. destruct (rule_eqb (m_rule m) RCST); [|discriminate]. injection He as <-. unfold no_eff, set_body, eff_with. cbn. eauto.
+Qed.
+
+Lemma ctl_rdv_recv_commute c f t nf k n0 body nx s ps k2 m st e :
+  ns_ok c -> CtlReady c f t nf k -> procs c !! t = Some (Proc [n0] body nx) -> procs c !! s = Some ps -> s <> t ->
+  action_of NP D ps = ASend k2 m -> action_of NP D (Proc [n0] body nx) = ARecv k2 -> k2 <> k ->
+  chans c !! k2 = Some st -> ch_closed st = false -> on_message t (Proc [n0] body nx) m = EOk e ->
+  m_rule m <> RFWD -> m_rule m <> RGC -> (exists kf, chan nf = Some kf) ->
+  let c1 := apply_effect (del_proc c s) t (Proc [n0] body nx) e in
+  step NP D F c (Rendezvous s t) = SStep c1 /\
+  step NP D F (ctl nf k f t c) (Rendezvous s t) = SStep (ctl nf k f t c1) /\ CtlReady c1 f t nf k.
+Proof.
+  intros Hns Hready Hpt Hs Hst Eas Ear Hk2 Hch Hcl He Hfw Hgc [kf Hkf] c1.
+  destruct Hready as (Hft & pf & pt' & n0' & Hf & Hpt' & Eaf & Hn0 & Hk). rewrite Hpt in Hpt'. injection Hpt' as <-. cbn in Hn0. injection Hn0 as <-.
+  assert (Hsf : s <> f) by (intros ->; rewrite Hs in Hf; injection Hf as <-; congruence).
+  destruct (recv_client_provs t n0 nf k kf body nx k2 m e Hk Hkf Hk2 Ear He Hfw Hgc) as (Ear' & B & -> & He').
+  split; [|split].
+  - cbn [step]. rewrite bool_decide_eq_false_2 by done. rewrite Hs, Hpt, Eas, Ear. rewrite bool_decide_eq_true_2 by done. rewrite Hch, Hcl, He. reflexivity.
+  - assert (Hl1 : procs (ctl nf k f t c) !! s = Some ps) by (unfold ctl; rewrite Hpt; cbn; rewrite lookup_insert_ne by done; by rewrite lookup_delete_ne).
+    assert (Hl2 : procs (ctl nf k f t c) !! t = Some (Proc [nf] body nx)) by (unfold ctl; rewrite Hpt; cbn; apply lookup_insert).
+    assert (Hl3 : chans (ctl nf k f t c) !! k2 = Some st).
+    { unfold ctl. rewrite Hpt. cbn [chans]. rewrite close_all_lookup. rewrite decide_False; [done|]. intros H. apply elem_of_list_singleton in H. done. }
+    cbn [step]. rewrite bool_decide_eq_false_2 by done. rewrite Hl1, Hl2, Eas, Ear'. rewrite bool_decide_eq_true_2 by done. rewrite Hl3, Hcl, He'. cbn [eff_step]. f_equal.
+    rewrite <- ctl_del by done. unfold c1. apply ctl_effect_commute; try done.
+    + cbn. by rewrite lookup_delete_ne.
+    + intros H. by apply elem_of_nil in H.
+  - split; [done|]. unfold c1. rewrite apply_effect_eq. unfold eff_with, procs_after. cbn [e_after procs e_spawn e_newch del_proc].
+    exists pf, (Proc [n0] B (eff_next1 (Proc [n0] body nx) (Eff (Continue (Proc [n0] B nx)) [] [] [] []))), n0.
+    split; [|split; [apply lookup_insert|done]].
+    rewrite lookup_insert_ne by done. unfold spawned. cbn. rewrite (left_id_L ∅ (∪)). by rewrite lookup_delete_ne.
+Qed.
 End Join.
 
 (* ------------------------------------------------------------------ two control messages in a row: f -> t -> t' *)
